@@ -279,7 +279,7 @@ func thorough(prop, repo string, rep *core.Report) {
 		}
 	}
 	// bound the sweep deterministically (every k-th mutant) to keep the thorough tier within minutes
-	const maxMutants = 480
+	const maxMutants = 1200
 	if nSites > maxMutants {
 		step := (nSites + maxMutants - 1) / maxMutants
 		var kept []job
